@@ -260,12 +260,20 @@ impl<Key> CacheWeight<Key>
     pub(crate) fn delete_if<Condition, DeleteHook>(&self, key_id: &KeyId, should_delete: &Condition, delete_hook: &DeleteHook)
         where Condition: Fn(&Key) -> bool,
               DeleteHook: Fn(Key) {
+        #[cfg(feature = "cached_verif")]
+        crate::cache::verif::point("kw.remove");
         if let Some(weight_by_key_hash) = self.key_weights.remove_if(key_id, |_, weighted_key| should_delete(&weighted_key.key)) {
+            #[cfg(feature = "cached_verif")]
+            crate::cache::verif::point_need("wu.sub", || "wu".to_string());
             let mut guard = self.weight_used.write();
             *guard -= weight_by_key_hash.1.weight;
+            #[cfg(feature = "cached_verif")]
+            crate::cache::verif::hold(|| "wu".to_string());
             delete_hook(weight_by_key_hash.1.key);
 
             self.stats_counter.remove_weight(weight_by_key_hash.1.weight as u64);
+            #[cfg(feature = "cached_verif")]
+            crate::cache::verif::unhold(|| "wu".to_string());
         }
     }
 
